@@ -6,13 +6,17 @@ are compared under the relation the statement gives (Fn' = k Fn, Xi' = Xi, phi' 
 tables column by column as multisets matched one-to-one by value. The transformed record is handed over both as a fresh array and as the SAME array
 object re-declared at another rate / rescaled or permuted in place (sequences of runs back to back, identical settings).
 """
+import hashlib
 import itertools
 
 import numpy as np
 from scipy.optimize import linear_sum_assignment
 
 from checks import _a_fdd as H
+from mc import looks
 from mc.core import Tally
+
+LOOK_EVERY = 24
 
 ID = "C08"
 TECHNIQUE = ("exhaustive walk of the (record x algorithm class x estimation setting x transformation x fresh copy / same array "
@@ -221,7 +225,7 @@ class Run:
     """One run through a setup: result tables and the extraction results."""
 
 
-def execute(variant, setting, tr_kind, data, fs, refs, k, seed, nch):
+def execute(variant, setting, tr_kind, data, fs, refs, k, seed, nch, look=None):
     """Run one algorithm through its setup class; returns a Run (tables as plain arrays)."""
     from pyoma2 import algorithms as A
     from pyoma2.setup import MultiSetup_PreGER, SingleSetup
@@ -239,8 +243,12 @@ def execute(variant, setting, tr_kind, data, fs, refs, k, seed, nch):
     else:
         ss = SingleSetup(data, fs)
     ss.add_algorithms(alg)
+    looked = []
+    if look is not None:      # LOOK, then run (mc/looks.py): the data plots of the setup are read-only operations
+        looked = looks.look_at_setup(ss, look, band=(0.05 * fs, 0.4 * fs), nxseg=128)
     ss.run_by_name("a")
     r = Run()
+    r.looked = looked
     res = alg.result
     r.fam = fam
     r.held = all(a is b for a, b in zip(ss.datasets, data)) if ms else (alg.data is data)   # monitor only, never a guard
@@ -519,6 +527,12 @@ def run_pair(t, seed, kind, nch, variant, setting, tr, cache=None):
     Y = build_inputs(seed, kind, nch, ms)
     nn = 6 if ms else nch
     runs = []
+    # on a fixed fraction (1 in LOOK_EVERY) of the pairs both runs LOOK at the records (plot_data, plot_ch_info, plot_STFT of the setup) before the run
+    pick = int(hashlib.sha1(repr((kind, nch, variant, sorted(setting.items()), tr[0], repr(tr[1]))).encode()).hexdigest(), 16)
+    look = pick // LOOK_EVERY if pick % LOOK_EVERY == 0 else None
+    if look is not None:
+        cache = None
+        case["looked_at_the_records_before_both_runs"] = True
     for which, trx in (("original", ("gain", 1.0)), ("transformed", tr)):
         ck = (which == "original", tr[0] == "mix")
         if cache is not None and which == "original" and ck in cache:
@@ -530,7 +544,9 @@ def run_pair(t, seed, kind, nch, variant, setting, tr, cache=None):
             data, fs, refs, L, k = apply_single(Y.copy(), FS, kw.get("ref_ind"), trx)
         t.evaluations += 1
         try:
-            r = execute(variant, setting, tr[0], data, fs, refs, k, seed, nn)
+            r = execute(variant, setting, tr[0], data, fs, refs, k, seed, nn, look=look)
+            for name, err in r.looked:
+                t.outcomes[f"looked at the records before the run: {name}" + (" (raised)" if err else "")] += 1
         except Exception as e:
             r = e
         if cache is not None and which == "original":
@@ -738,6 +754,9 @@ def lattice(ctx):
                         seqs.append(sq)
                     items.append(("same-object", ctx.seed, kind, nch, v, st, sq))
                     n_reuse += 1
+    ctx.bounds["read_only_operations_interleaved"] = (f"one pair in {LOOK_EVERY} (fixed by a digest of record, variant, setting and transformation): plot_data, "
+                                                      "plot_ch_info and plot_STFT of the setup are called before BOTH runs of the pair (all channels / explicit list, "
+                                                      "with / without a frequency window, by rotation); the pair is judged as any other")
     ctx.bounds.update({
         "same array object re-used": {
             "sequences": [[list(x) for x in sq] for sq in seqs], "number of sequences": n_reuse,
@@ -764,6 +783,8 @@ def explore(ctx):
     ctx.pmap(work, items, chunksize=1)
     ctx.require("same-object pair time", "same-object pair gain", "same-object pair perm",
                 "same-object pair composite (in-place gain/permutation, then another time unit)")
+    ctx.require("looked at the records before the run: plot_ch_info", "looked at the records before the run: plot_data",
+                "looked at the records before the run: plot_STFT")
     ctx.require("pair gain", "pair perm", "pair mix", "pair time", "stable poles matched", "unit largest component verified",
                 "pole tables compared (ssi)", "pole tables compared (plscf)", "extraction compared (ssi)",
                 "extraction compared (plscf)", "extraction compared (fdd)", "extraction compared (efdd)",
